@@ -408,6 +408,7 @@ func (g *gen) inject(pos token.Pos, name string, sig *types.Signature, set *Prov
 // generated package.
 func (g *gen) rewritePkgRefs(info *types.Info, node ast.Node) ast.Node {
 	start, end := node.Pos(), node.End()
+	typeSwitchVars := typeSwitchSymbols(info, node)
 	node = copyAST(node)
 	// First, rewrite all package names. This lets us know all the
 	// potentially colliding identifiers.
@@ -481,6 +482,11 @@ func (g *gen) rewritePkgRefs(info *types.Info, node ast.Node) ast.Node {
 			return true
 		}
 		obj := info.ObjectOf(id)
+		if vars := typeSwitchVars[id]; obj == nil && len(vars) > 0 {
+			// The symbolic variable of a type switch: renamed together
+			// with the implicit objects of the clauses.
+			obj = vars[0]
+		}
 		if obj == nil {
 			// We rewrote this identifier earlier, so it does not need
 			// further rewriting.
@@ -520,6 +526,9 @@ func (g *gen) rewritePkgRefs(info *types.Info, node ast.Node) ast.Node {
 			return false
 		})
 		newNames[obj] = newName
+		for _, v := range typeSwitchVars[id] {
+			newNames[v] = newName
+		}
 		c.Replace(ast.NewIdent(newName))
 		return false
 	}, func(c *astutil.Cursor) bool {
@@ -530,6 +539,34 @@ func (g *gen) rewritePkgRefs(info *types.Info, node ast.Node) ast.Node {
 		return true
 	})
 	return node
+}
+
+// typeSwitchSymbols maps the symbolic variable of every type switch in node
+// (x in "switch x := y.(type)") to the implicit objects that the clauses of
+// the switch declare for it. The identifier itself has no object.
+func typeSwitchSymbols(info *types.Info, node ast.Node) map[*ast.Ident][]types.Object {
+	m := make(map[*ast.Ident][]types.Object)
+	ast.Inspect(node, func(n ast.Node) bool {
+		ts, ok := n.(*ast.TypeSwitchStmt)
+		if !ok {
+			return true
+		}
+		assign, ok := ts.Assign.(*ast.AssignStmt)
+		if !ok || len(assign.Lhs) != 1 {
+			return true
+		}
+		id, ok := assign.Lhs[0].(*ast.Ident)
+		if !ok {
+			return true
+		}
+		for _, clause := range ts.Body.List {
+			if obj := info.Implicits[clause]; obj != nil {
+				m[id] = append(m[id], obj)
+			}
+		}
+		return true
+	})
+	return m
 }
 
 // writeAST prints an AST node into the generated output, rewriting any
